@@ -33,6 +33,7 @@ def run(ctx):
     ctx.trusted = ["leaf codecs are symmetric: cbor-smol 0.5.1, heapless, heapless-bytes, serde_bytes, cosey", "serde derive expansions (read from typed HIR)"]
     for cfg, F in ctx.facts.items():
         n_types = 0
+        n_repr = 0
         for a in sorted(F.adts.values(), key=lambda a: a["path"]):
             if not a["local"]:
                 continue
@@ -107,41 +108,36 @@ def run(ctx):
                 if var is None:
                     continue
                 ctx.oblige("C15|str|%s|dec-enc|%s" % (short, s), enc.get(var) == s, "%r decodes to %s which re-encodes as %r" % (s, var, enc.get(var)), cfg=cfg, where=fwd["sp"])
-            ser, de = T.ser_impl(F, path), T.de_impl(F, path)
-            oks = ser is not None and any(H.conversion_impl(n) == "<&str as core::convert::From<%s>>" % path for n in H.walk(ser["body"]))
-            okd = de is not None and any(H.conversion_impl(n) == "<%s as core::convert::TryFrom<&str>>" % path for n in H.walk(de["body"]))
-            ctx.oblige("C15|str|%s|serde" % short, oks and okd, "%s: the serde impls do not both go through the string tables" % short, cfg=cfg)
-        # serde_repr enums
+            # the serde impls themselves (derived through into/try_from = "&str" or hand-written): what Serialize emits for a
+            # variant is accepted by Deserialize as that variant, and vice versa
+            try:
+                ty_e, wenc, _ = FT.enum_encode(F, path)
+                ty_d, wdec, _ = FT.enum_decode(F, path, [x for x in enc.values() if x is not None] + [FT.OTHER], add_literals=True)
+                bad = [v for v, sp in wenc.items() if wdec.get(sp) != v] + [sp for sp, v in wdec.items() if v is not None and wenc.get(v) != sp]
+                ctx.oblige("C15|str|%s|serde" % short, ty_e == "str" and ty_d == "str" and not bad and wenc == enc,
+                           "%s: the Serialize and Deserialize impls are not inverse on %s (emits %s %s, reads %s %s)" % (short, bad[:3], ty_e, wenc, ty_d, {k: v for k, v in wdec.items() if v}), cfg=cfg)
+            except FT.Unreadable as e:
+                ctx.violation("C15|str|%s|serde" % short, "%s: the serde impls do not both go through the string tables (UNREADABLE-IMPL: %s)" % (short, e), cfg=cfg)
+        # enums on the wire as their integer discriminant (serde_repr or hand-written)
         for a in sorted(F.adts.values(), key=lambda a: a["path"]):
-            if not a["local"] or a["kind"] != "enum":
+            if not a["local"] or a["kind"] != "enum" or any(v["fields"] for v in a["variants"]) or not (a.get("repr") or {}).get("int"):
                 continue
             ser, de = T.ser_impl(F, a["path"]), T.de_impl(F, a["path"])
-            if ser is None or de is None or T.impl_kind(ser) != "Serialize_repr":
+            if ser is None or de is None:
                 continue
             n_types += 1
+            n_repr += 1
             discr = {v["name"]: v.get("discr") for v in a["variants"]}
             short = a["path"].split("::")[-1]
-            okser = True
-            for x in H.walk(ser["body"]):
-                if x.get("k") == "match":
-                    for arm in x["arms"]:
-                        b = H.strip_block(arm["body"])
-                        if not (b.get("k") == "cast" and H.ctor(b["e"]) == H.pat_ctor(arm["pat"])):
-                            okser = False
-            ctx.oblige("C15|repr|%s|ser" % short, okser, "%s: encoder does not emit each variant's own discriminant" % short, cfg=cfg)
-            ctx.oblige("C15|repr|%s|de-derived" % short, T.impl_kind(de) == "Deserialize_repr",
-                       "%s is encoded by serde_repr but decoded by a hand-written impl: the two directions no longer share one discriminant table" % short, cfg=cfg)
+            from . import ftable as FT
             try:
-                _, rows = T.conversion_table(de, F)
-                acc = {}
-                for r in rows:
-                    if r["catchall"]:
-                        break
-                    k, c = T.result_value(r["res"], F)
-                    for v in r["vals"]:
-                        acc.setdefault(v, c.split("::")[-1] if c else None)
-                ctx.oblige("C15|repr|%s|de" % short, acc == {v: n for n, v in discr.items()}, "%s: decoder table %s differs from the discriminants %s" % (short, acc, discr), cfg=cfg)
-            except T.Unreadable as e:
+                ty_e, wenc, _ = FT.enum_encode(F, a["path"])
+                ctx.oblige("C15|repr|%s|ser" % short, wenc == discr, "%s: encoder does not emit each variant's own discriminant (%s)" % (short, wenc), cfg=cfg)
+                ty_d, wdec, _ = FT.enum_decode(F, a["path"], range(256))
+                acc = {v: n for v, n in wdec.items() if n is not None}
+                ctx.oblige("C15|repr|%s|de" % short, acc == {v: n for n, v in discr.items()} and ty_e == ty_d,
+                           "%s: decoder reads %s and accepts %s; the encoder emits %s %s" % (short, ty_d, acc, ty_e, discr), cfg=cfg)
+            except FT.Unreadable as e:
                 ctx.violation("C15|repr|%s|unreadable" % short, "UNREADABLE-IMPL: %s" % e, cfg=cfg)
         # filtered parameter list: decode keeps {type == L, alg in KNOWN}, encode re-emits {alg, type: L}
         conv = F.trait_impl_fn("<webauthn::PublicKeyCredentialParameters as core::convert::From<webauthn::KnownPublicKeyCredentialParameters>>", "from")
@@ -170,3 +166,4 @@ def run(ctx):
             mod.run(pr)
             ctx.oblige("C15|decoder-semantics|" + lab, not pr.failed, "the %s do not give back what the encoder emitted: %s" % (lab, "; ".join("%s: %s" % (k, m[:160]) for k, m in pr.failed[:2])), cfg=cfg)
         ctx.floor("bidirectional types", n_types, 27, cfg=cfg)
+        ctx.floor("integer-valued enums with both directions", n_repr, 2, cfg=cfg)
